@@ -29,7 +29,7 @@ for d in sorted(glob.glob(os.path.join(V, 'seeded', '*', 'meta.json'))):
         l = [x for x in v.get('lines', []) if x.startswith('VIOLATED')]
         ob = l[0].split()[1] if l else ''
         lines.append('%s%s' % (c, (' `%s`' % ob) if ob and v.get('exit') == 1 else (' (exit %s)' % v.get('exit'))))
-    wave = {1: 1, 2: 1, 3: 2, 4: 2, 5: 3, 6: 3}.get(int(name.split('-')[1]), 0)
+    wave = {1: 1, 2: 1, 3: 2, 4: 2, 5: 3, 6: 3, 7: 4, 8: 4}.get(int(name.split('-')[1]), 0)
     if name in ANTICIPATED:
         first_txt += ' (obligation added beforehand from the summary)'
     rows.append((name, m.get('property'), ', '.join(f.replace('omaha-client/src/', '') for f in files), need, m.get('confirmed'), first_txt, ', '.join(lines), m.get('caught_by') or []))
@@ -42,8 +42,8 @@ out = ['# Seeded changes', '',
        '', '    git -C /repo apply /verif/seeded/<id>/patch.diff && ./check <Cnn>; git -C /repo checkout -- .', '',
        '(`tools/seed.py` does the confirmation and the runs; with `--in-worktree` it applies the change in the scratch worktree and',
        'points the checks at it through `VERIF_REPO`, so that several changes can be tested side by side.)', '',
-       'Waves: -1/-2 first wave, -3/-4 second wave (agents told which ideas were taken), -5/-6 third wave (checks run on them',
-       'before anything about them was looked at).', '',
+       'Waves: -1/-2 first wave, -3/-4 second wave (agents told which ideas were taken), -5/-6 third and -7/-8 fourth wave (checks run',
+       'on them before anything about them was looked at).', '',
        '| change | property | touches | confirmed | first run of the checks | now: obligation that fires |',
        '|---|---|---|---|---|---|']
 for r in rows:
